@@ -461,3 +461,60 @@ Proof.
     match type of H with In _ (if ?b then _ else _) => destruct b eqn:E end; simpl in H; try contradiction;
     destruct H as [<-|[]]; apply Nat.ltb_lt in E; nia.
 Qed.
+
+(* ---------------------------------------------------------------- more list lemmas (completeness) *)
+Lemma NoDup_map_inj_on {A B} (f : A -> B) (l : list A) :
+  NoDup l -> (forall a b, In a l -> In b l -> f a = f b -> a = b) -> NoDup (map f l).
+Proof.
+  induction l as [|a l IH]; intros Hnd Hinj; simpl; [constructor|].
+  inversion Hnd; subst. constructor.
+  - intros Hin. apply in_map_iff in Hin. destruct Hin as [b [E Hb]].
+    assert (b = a) by (apply Hinj; [right; exact Hb|left; reflexivity|exact E]). subst. contradiction.
+  - apply IH; [assumption|]. intros x y Hx Hy. apply Hinj; right; assumption.
+Qed.
+
+Lemma firstn_S_nth {A} (l : list A) : forall i c, nth_error l i = Some c -> firstn (S i) l = firstn i l ++ [c].
+Proof.
+  induction l as [|a l IH]; intros i c H; [destruct i; discriminate|].
+  destruct i as [|i]; simpl in H.
+  - inversion H; subst. reflexivity.
+  - change (firstn (S (S i)) (a :: l)) with (a :: firstn (S i) l). rewrite (IH i c H). reflexivity.
+Qed.
+
+Lemma count_filter_length {A} (f : A -> bool) l : count f l = length (filter f l).
+Proof. reflexivity. Qed.
+
+Lemma find_some_seq (f : nat -> bool) n k : k < n -> f k = true -> exists k', find f (seq 0 n) = Some k' /\ k' < n /\ f k' = true.
+Proof.
+  intros Hk Hf. destruct (find f (seq 0 n)) as [k'|] eqn:E.
+  - apply find_some in E. destruct E as [Hin Hf']. apply in_seq in Hin. exists k'. split; [reflexivity|]. split; [lia|exact Hf'].
+  - exfalso. pose proof (find_none _ _ E k ltac:(apply in_seq; lia)). congruence.
+Qed.
+
+(* position of a cell in a list, by its index on the board *)
+Fixpoint cpos (fw idx : nat) (l : list cell) : option nat :=
+  match l with
+  | [] => None
+  | c :: r => if Nat.eqb (cix fw c) idx then Some 0 else option_map S (cpos fw idx r)
+  end.
+
+Lemma cpos_nth fh fw (l : list cell) : NoDup l -> (forall c, In c l -> onb fh fw c) ->
+  forall i c, nth_error l i = Some c -> cpos fw (cix fw c) l = Some i.
+Proof.
+  induction l as [|a l IH]; intros Hnd Hon i c Hi; [destruct i; discriminate|].
+  inversion Hnd; subst. destruct i as [|i]; simpl in Hi.
+  - inversion Hi; subst. simpl. rewrite Nat.eqb_refl. reflexivity.
+  - simpl. destruct (Nat.eqb_spec (cix fw a) (cix fw c)) as [E|E].
+    + exfalso. apply (cix_inj fh fw) in E; [|apply Hon; left; reflexivity|apply Hon; right; apply nth_error_In with i; exact Hi].
+      subst. apply H1. apply nth_error_In with i. exact Hi.
+    + rewrite (IH H2 (fun c' Hc' => Hon c' (or_intror Hc')) i c Hi). reflexivity.
+Qed.
+
+Lemma cpos_none fh fw (l : list cell) c : (forall c', In c' l -> onb fh fw c') -> onb fh fw c -> ~ In c l ->
+  cpos fw (cix fw c) l = None.
+Proof.
+  induction l as [|a l IH]; intros Hon Hc Hn; [reflexivity|].
+  simpl. destruct (Nat.eqb_spec (cix fw a) (cix fw c)) as [E|E].
+  - exfalso. apply (cix_inj fh fw) in E; [|apply Hon; left; reflexivity|exact Hc]. subst. apply Hn. left. reflexivity.
+  - rewrite IH; [reflexivity| |exact Hc|]; [intros c' Hc'; apply Hon; right; exact Hc'|intros H; apply Hn; right; exact H].
+Qed.
